@@ -2,8 +2,11 @@
 package c02
 
 import (
+	"encoding/json"
 	"fmt"
+	"os"
 	"sort"
+	"strings"
 	"testing"
 
 	"github.com/openacid/low/bitmap"
@@ -19,37 +22,74 @@ var keep func(func() string)
 
 func init() { keep = checker.Keep }
 
+// coldOrder decides which function of the property makes the very FIRST library call of this process:
+// 0 = Select32, 1 = Select32R64. Only one call per process can be the first, so the order differs from
+// process to process: it alternates with VERIF_SEED, with the shard number and between the ordinary
+// process and the one that varies GOMAXPROCS (the quick tier runs both: each order occurs at every seed).
+// A replay of a cold-start failure takes the order from the case file (read here, before any library call).
+func coldOrder() int {
+	if p := os.Getenv("VERIF_REPLAY"); p != "" {
+		if raw, err := os.ReadFile(p); err == nil {
+			var fc struct {
+				Case Case `json:"case"`
+			}
+			if json.Unmarshal(raw, &fc) == nil && strings.HasPrefix(fc.Case.Style, "cold-start:") && fc.Case.Order > 0 {
+				return (fc.Case.Order - 1) & 1
+			}
+		}
+	}
+	shard, _ := vk.Shard()
+	k := vk.Seed() + uint64(shard)
+	if vk.ProcsVaried() {
+		k++
+	}
+	return int(k & 1)
+}
+
+var coldStartOrder = coldOrder()
+
 // coldStart runs before anything else in the process: Select32 / Select32R64 / Rank64 are queried with
 // indexes computed by the oracle (equal to what the builders return, but no builder has run yet in
-// this process - e.g. an index loaded from disk). State that only the builders initialise shows up.
-func coldStart() string {
-	for _, w := range [][]uint64{{0x8000000000010100, 0, 0x10}, {^uint64(0), 0x0123456789abcdef, 1 << 63}, {0xb5 << 24}} {
-		pos := model.Ones(w)
-		var sidx, ridx []int32
-		for k := 0; 32*k < len(pos); k++ {
-			sidx = append(sidx, pos[32*k])
-		}
-		cnt := int32(0)
-		for _, x := range w {
+// this process - e.g. an index loaded from disk). State that only the builders initialise - or that only
+// ONE of the two select functions initialises (see coldOrder) - shows up.
+func coldStart(order int) string {
+	// three passes over the same bitmaps: every i through the function that comes first in this process, then
+	// every i through the other one (the second function must not have been called while the first one is
+	// probed: whatever it initialises would hide what the first one lacks), then Rank64(select(i))
+	for pass := 0; pass < 3; pass++ {
+		for _, w := range [][]uint64{{0x8000000000010100, 0, 0x10}, {^uint64(0), 0x0123456789abcdef, 1 << 63}, {0xb5 << 24}} {
+			pos := model.Ones(w)
+			var sidx, ridx []int32
+			for k := 0; 32*k < len(pos); k++ {
+				sidx = append(sidx, pos[32*k])
+			}
+			cnt := int32(0)
+			for _, x := range w {
+				ridx = append(ridx, cnt)
+				cnt += int32(model.WordCount(x))
+			}
 			ridx = append(ridx, cnt)
-			cnt += int32(model.WordCount(x))
-		}
-		ridx = append(ridx, cnt)
-		for i := range pos {
-			next := int32(64 * len(w))
-			if i+1 < len(pos) {
-				next = pos[i+1]
-			}
-			a, b := bitmap.Select32(w, sidx, int32(i))
-			if a != pos[i] || b != next {
-				return fmt.Sprintf("first use in the process: Select32(%#x, oracle-built index, %d) = (%d,%d), want (%d,%d)", w, i, a, b, pos[i], next)
-			}
-			a, b = bitmap.Select32R64(w, sidx, ridx, int32(i))
-			if a != pos[i] || b != next {
-				return fmt.Sprintf("first use in the process: Select32R64(%#x, oracle-built indexes, %d) = (%d,%d), want (%d,%d)", w, i, a, b, pos[i], next)
-			}
-			if r, bit := bitmap.Rank64(w, ridx, pos[i]); r != int32(i) || bit != 1 {
-				return fmt.Sprintf("first use in the process: Rank64(%#x, oracle-built index, %d) = (%d,%d), want (%d,1)", w, pos[i], r, bit, i)
+			for i := range pos {
+				next := int32(64 * len(w))
+				if i+1 < len(pos) {
+					next = pos[i+1]
+				}
+				switch {
+				case pass == 2:
+					if r, bit := bitmap.Rank64(w, ridx, pos[i]); r != int32(i) || bit != 1 {
+						return fmt.Sprintf("first use in the process: Rank64(%#x, oracle-built index, %d) = (%d,%d), want (%d,1)", w, pos[i], r, bit, i)
+					}
+				case pass^order == 0:
+					a, b := bitmap.Select32(w, sidx, int32(i))
+					if a != pos[i] || b != next {
+						return fmt.Sprintf("first use in the process: Select32(%#x, oracle-built index, %d) = (%d,%d), want (%d,%d)", w, i, a, b, pos[i], next)
+					}
+				default:
+					a, b := bitmap.Select32R64(w, sidx, ridx, int32(i))
+					if a != pos[i] || b != next {
+						return fmt.Sprintf("first use in the process: Select32R64(%#x, oracle-built indexes, %d) = (%d,%d), want (%d,%d)", w, i, a, b, pos[i], next)
+					}
+				}
 			}
 		}
 	}
@@ -57,22 +97,27 @@ func coldStart() string {
 }
 
 var coldStartResult = func() (msg string) {
-	vk.ArmProbe("C02", Case{Style: "cold-start:the process died during its first calls of the library"})
+	vk.ArmProbe("C02", Case{Style: "cold-start:the process died during its first calls of the library", Order: coldStartOrder + 1})
 	defer vk.DisarmProbe()
 	defer func() {
 		if r := recover(); r != nil {
 			msg = fmt.Sprintf("first use in the process panicked: %v", r)
 		}
 	}()
-	return coldStart()
+	msg = coldStart(coldStartOrder)
+	if msg != "" {
+		msg += []string{" [first call of the process: Select32]", " [first call of the process: Select32R64]"}[coldStartOrder]
+	}
+	return msg
 }()
 
 // TestColdStart reports what the very first library calls of this process returned.
 func TestColdStart(t *testing.T) {
 	vk.SetPhase("coldstart")
 	vk.Label("cold-start-probe", 1)
+	vk.Label([]string{"cold-start-order:Select32-first", "cold-start-order:Select32R64-first"}[coldStartOrder], 1)
 	if coldStartResult != "" {
-		checker.Run(t, Case{Style: "cold-start:" + coldStartResult})
+		checker.Run(t, Case{Style: "cold-start:" + coldStartResult, Order: coldStartOrder + 1})
 	}
 }
 
@@ -239,6 +284,7 @@ type Case struct {
 	Sp      *Spec        `json:"sp,omitempty"` // a fill word plus explicit exception words (long empty runs, very large bitmaps)
 	Style   string       `json:"style,omitempty"`
 	Queries []int32      `json:"queries,omitempty"` // extra i for bitmaps with more than allUpTo ones (taken mod n)
+	Order   int          `json:"order,omitempty"`   // cold-start cases only: 1 + coldOrder of the process that failed
 }
 
 func (c Case) words() []uint64 {
@@ -348,6 +394,9 @@ var checker = &vk.Checker[Case]{
 		"last: three sparse bitmaps of 2^18..2^23 words (ones at every magnitude of position, around word 2^17 and in the last words) and an almost full one of more than 2^18 words (more than 2^24 ones: select arguments, checkpoints and rank counts beyond 2^23 and 2^24). " +
 		"Every valid i in [0,n) is queried when n <= 4096 (else 0, n-1, all i = -1,0,1 mod 32 - beyond 5*2^20 ones those of the first and last 2^15 and within 1024 of every power of two - and sampled i) through Select32, Select32R64 and Rank64(select(i)) against the naive list of 1-positions; both indexes compared entry by entry, after the index builders have been called on other bitmaps (a result aliasing library-owned memory is seen). " +
 		"The bitmap is handed over as an exact-size slice inside a larger non-zero buffer or in a reused buffer with guarded spare capacity; an empty bitmap as nil or as an empty slice. " +
+		"Call order: the two index builders and the two select functions are called in either order (by checksum of the case and i); the very first selects of a process (oracle-built indexes, before any builder has run) go through Select32 in one process and through Select32R64 in the other (alternating with seed, shard and the GOMAXPROCS-varying process). " +
+		"Bitmaps up to 4096 words (thorough: every size) are then edited in place: one builder once more on the unchanged content, select(i0), one bit flipped (the i0-th or (i0+1)-th one cleared, or the first 0 above the i0-th one set), the OTHER builder first on the new content at the same address, both new indexes entry by entry and select(i0+1), select(i0), select(i0+2) through both functions against the edited list of 1-positions, the bit flipped back, one builder again and a last select; on the reused buffer the first select of the next case asks for the successor of the last i of the previous content. " +
+		"After all calls the argument bitmap equals its private copy and the guard words in the spare capacity of the reused buffer are intact. " +
 		"Thorough only: a sparse bitmap of 2^24..2^25 words, and both indexes and every select on the MAXIMUM bitmap (exactly 2^25 words = 2^31 bits, three sparse descriptions; the next-position of the last one, 2^31, fits no int32 and is not asserted). " +
 		"Non-trivial: n >= 2 (so a query with i%32 != 0 runs the in-word search and the next-1 scan). Distinct by hash of the case.",
 	Check:    check,
@@ -518,15 +567,39 @@ func check(c Case) (f *vk.Failure) {
 	if reused {
 		words = scratch.U64(orig) // ... or, every other case, a reused buffer with guarded spare capacity
 	}
+	// the argument belongs to the caller: after all calls it reads as before, and so does its spare capacity
+	defer func() {
+		if f != nil {
+			return
+		}
+		if reused {
+			if msg := scratch.Check(); msg != "" {
+				f = vk.Failf("argument-spare-capacity-written", "%s", msg)
+				return
+			}
+		}
+		for i := range orig {
+			if words[i] != orig[i] {
+				f = vk.Failf("argument-modified", "bitmap word %d was %#x before the calls and is %#x after them", i, orig[i], words[i])
+				return
+			}
+		}
+	}()
 	nw := len(words)
 	pos := onesOf(c, orig)
 	n := len(pos)
 	end := int32(64 * nw)
 
+	// the two builders in either order (by checksum)
 	var sidx, sidx2, ridx []int32
 	if f := vk.Try("IndexSelect32/IndexSelect32R64", func() {
-		sidx = bitmap.IndexSelect32(words)
-		sidx2, ridx = bitmap.IndexSelect32R64(words)
+		if vk.Mix(sum^0xb1d0)&1 == 0 {
+			sidx = bitmap.IndexSelect32(words)
+			sidx2, ridx = bitmap.IndexSelect32R64(words)
+		} else {
+			sidx2, ridx = bitmap.IndexSelect32R64(words)
+			sidx = bitmap.IndexSelect32(words)
+		}
 	}); f != nil {
 		return f
 	}
@@ -546,9 +619,14 @@ func check(c Case) (f *vk.Failure) {
 		if len(orig) > othersInFull {
 			others = [][]uint64{inv, append(append([]uint64{}, inv[:1021]...), ^uint64(0), 0, 0x8000000000000001)}
 		}
-		for _, other := range others {
-			_ = bitmap.IndexSelect32(other)
-			_, _ = bitmap.IndexSelect32R64(other)
+		for k, other := range others {
+			if (vk.Mix(sum^0x07e5)+uint64(k))&1 == 0 {
+				_ = bitmap.IndexSelect32(other)
+				_, _ = bitmap.IndexSelect32R64(other)
+			} else {
+				_, _ = bitmap.IndexSelect32R64(other)
+				_ = bitmap.IndexSelect32(other)
+			}
 		}
 	}); f != nil {
 		return f
@@ -562,7 +640,10 @@ func check(c Case) (f *vk.Failure) {
 		for k := 0; 32*k < n; k++ {
 			ws = append(ws, pos[32*k])
 		}
-		wr := append([]int32(nil), bitmap.IndexRank64(orig, true)...)
+		var wr []int32
+		if f := vk.Try("IndexRank64(words, true)", func() { wr = append([]int32(nil), bitmap.IndexRank64(orig, true)...) }); f != nil {
+			return f
+		}
 		keep(func() string {
 			if len(ks) != len(ws) {
 				return "select index changed length"
@@ -580,30 +661,53 @@ func check(c Case) (f *vk.Failure) {
 			return ""
 		})
 	}
-	wantEntries := (n + 31) / 32
-	for name, ix := range map[string][]int32{"IndexSelect32": sidx, "IndexSelect32R64.select": sidx2} {
-		if len(ix) != wantEntries {
-			return vk.Failf("select-index-len", "%s has %d entries for %d ones, want %d", name, len(ix), n, wantEntries)
+	// selectIndexIs / rankIndexIs: an index against the oracle's list of 1-positions (at(j) for j in [0,cnt)) /
+	// against the running count of the words as they are now (same words, one bit flipped: see the edit below)
+	selectIndexIs := func(name string, ix []int32, cnt int, at func(int) int32) *vk.Failure {
+		if want := (cnt + 31) / 32; len(ix) != want {
+			return vk.Failf("select-index-len", "%s has %d entries for %d ones, want %d", name, len(ix), cnt, want)
 		}
 		for k := range ix {
-			if ix[k] != pos[32*k] {
-				return vk.Failf("select-index-entry", "%s[%d] = %d, want %d", name, k, ix[k], pos[32*k])
+			if ix[k] != at(32*k) {
+				return vk.Failf("select-index-entry", "%s[%d] = %d, want %d", name, k, ix[k], at(32*k))
 			}
 		}
+		return nil
 	}
-	if len(ridx) != nw+1 {
-		return vk.Failf("rank-index-len", "IndexSelect32R64 rank index has %d entries for %d words, want %d", len(ridx), nw, nw+1)
-	}
-	cnt := int32(0)
-	for k := 0; k <= nw; k++ {
-		if ridx[k] != cnt {
-			return vk.Failf("rank-index-entry", "IndexSelect32R64 rank index [%d] = %d, want %d", k, ridx[k], cnt)
+	rankIndexIs := func(name string, rx []int32, flipWord, delta int) *vk.Failure {
+		if len(rx) != nw+1 {
+			return vk.Failf("rank-index-len", "%s rank index has %d entries for %d words, want %d", name, len(rx), nw, nw+1)
 		}
-		if k < nw {
-			cnt += int32(model.WordCount(orig[k]))
+		cnt := int32(0)
+		for k := 0; k <= nw; k++ {
+			if rx[k] != cnt {
+				return vk.Failf("rank-index-entry", "%s rank index [%d] = %d, want %d", name, k, rx[k], cnt)
+			}
+			if k < nw {
+				cnt += int32(model.WordCount(orig[k]))
+				if k == flipWord {
+					cnt += int32(delta)
+				}
+			}
+		}
+		return nil
+	}
+	posAt := func(j int) int32 { return pos[j] }
+	for _, e := range []struct {
+		name string
+		ix   []int32
+	}{{"IndexSelect32", sidx}, {"IndexSelect32R64.select", sidx2}} {
+		if f := selectIndexIs(e.name, e.ix, n, posAt); f != nil {
+			return f
 		}
 	}
-	ref := bitmap.IndexRank64(words, true)
+	if f := rankIndexIs("IndexSelect32R64", ridx, -1, 0); f != nil {
+		return f
+	}
+	var ref []int32
+	if f := vk.Try("IndexRank64(words, true)", func() { ref = bitmap.IndexRank64(words, true) }); f != nil {
+		return f
+	}
 	if len(ref) != len(ridx) {
 		return vk.Failf("rank-index-vs-IndexRank64", "rank index differs from IndexRank64(words,true) in length")
 	}
@@ -613,34 +717,248 @@ func check(c Case) (f *vk.Failure) {
 		}
 	}
 
+	// selectPair: Select32 and Select32R64 for the same i, in either order (by checksum and i), against (wantA, wantB)
+	selectPair := func(what string, s1, s2, r2 []int32, i, wantA, wantB int32, cnt int) *vk.Failure {
+		var a1, b1, a2, b2 int32
+		if f := vk.TryF(func() string { return fmt.Sprintf("%sSelect32/Select32R64(i=%d of %d ones)", what, i, cnt) }, func() {
+			if (vk.Mix(sum^0x5e1ec7)+uint64(i))&1 == 0 {
+				a1, b1 = bitmap.Select32(words, s1, i)
+				a2, b2 = bitmap.Select32R64(words, s2, r2, i)
+			} else {
+				a2, b2 = bitmap.Select32R64(words, s2, r2, i)
+				a1, b1 = bitmap.Select32(words, s1, i)
+			}
+		}); f != nil {
+			return f
+		}
+		if a1 != wantA || b1 != wantB {
+			return vk.Failf("select32", "%sSelect32(i=%d) = (%d,%d), want (%d,%d) [n=%d]", what, i, a1, b1, wantA, wantB, cnt)
+		}
+		if a2 != wantA || b2 != wantB {
+			return vk.Failf("select32r64", "%sSelect32R64(i=%d) = (%d,%d), want (%d,%d) [n=%d]", what, i, a2, b2, wantA, wantB, cnt)
+		}
+		return nil
+	}
 	query := func(i int32) *vk.Failure {
 		wantA := pos[i]
 		wantB := end
 		if int(i)+1 < n {
 			wantB = pos[i+1]
 		}
-		var a1, b1, a2, b2, r, bit int32
-		if f := vk.TryF(func() string { return fmt.Sprintf("Select32/Select32R64(i=%d of %d ones)", i, n) }, func() {
-			a1, b1 = bitmap.Select32(words, sidx, i)
-			a2, b2 = bitmap.Select32R64(words, sidx2, ridx, i)
-		}); f != nil {
+		if f := selectPair("", sidx, sidx2, ridx, i, wantA, wantB, n); f != nil {
 			return f
 		}
-		if a1 != wantA || b1 != wantB {
-			return vk.Failf("select32", "Select32(i=%d) = (%d,%d), want (%d,%d) [n=%d]", i, a1, b1, wantA, wantB, n)
-		}
-		if a2 != wantA || b2 != wantB {
-			return vk.Failf("select32r64", "Select32R64(i=%d) = (%d,%d), want (%d,%d) [n=%d]", i, a2, b2, wantA, wantB, n)
-		}
-		if f := vk.Try("Rank64(select(i))", func() { r, bit = bitmap.Rank64(words, ridx, a1) }); f != nil {
+		var r, bit int32
+		if f := vk.Try("Rank64(select(i))", func() { r, bit = bitmap.Rank64(words, ridx, wantA) }); f != nil {
 			return f
 		}
 		if r != i || bit != 1 {
-			return vk.Failf("rank-of-select", "Rank64(Select32(%d)=%d) = (%d,%d), want (%d,1)", i, a1, r, bit, i)
+			return vk.Failf("rank-of-select", "Rank64(Select32(%d)=%d) = (%d,%d), want (%d,1)", i, wantA, r, bit, i)
 		}
 		return nil
 	}
 
+	// a reused buffer carried other content a moment ago, and the last select on it asked for some i: the FIRST
+	// select on the new content asks for the successor i+1 (a "continue from the previous call" memo keyed by the
+	// address of the bitmap is then hit with changed content)
+	if reused && n > 0 && carry.valid {
+		vk.Label("first-query:successor-of-the-last-query-on-the-previous-content(same address)", 1)
+		if f := query(int32((int64(carry.i) + 1) % int64(n))); f != nil {
+			return f
+		}
+	}
+	if reused {
+		carry.valid = false
+	}
+	if f := allQueries(c, n, query); f != nil {
+		return f
+	}
+	if nw == 0 {
+		return nil
+	}
+	// lastQuery: the last selects of the case (the next case that reuses the buffer starts with the successor of iLast)
+	lastQuery := func() *vk.Failure {
+		if n == 0 {
+			return nil
+		}
+		iLast := int32(vk.Mix(sum^0x1a57) % uint64(n))
+		if f := query(iLast); f != nil { // with the indexes of the very first builder calls: they describe this content
+			return f
+		}
+		if reused {
+			carry.valid, carry.i = true, iLast
+		}
+		return nil
+	}
+	if nw > vk.Pick(editUpTo, specMaxWords) {
+		return lastQuery()
+	}
+
+	// ---- the caller edits the bitmap in place (one bit), rebuilds the indexes and goes on where it was:
+	// builder A on the old content, builder B first on the new one (same address, same length), and the select
+	// that follows select(i0) on the old content is select(i0+1) on the new one.
+	i0 := 0
+	if n >= 3 {
+		i0 = int(vk.Mix(sum^0xed17) % uint64(n-2))
+	}
+	// the bit to flip and the new list of 1-positions as a function at(j), j in [0,n2)
+	var flip int32
+	var at func(int) int32
+	n2, delta := n, 0
+	clearAt := func(k int) {
+		flip, n2, delta = pos[k], n-1, -1
+		at = func(j int) int32 {
+			if j < k {
+				return pos[j]
+			}
+			return pos[j+1]
+		}
+	}
+	setAt := func(p int32, k int) { // p becomes the k-th one
+		flip, n2, delta = p, n+1, 1
+		at = func(j int) int32 {
+			switch {
+			case j < k:
+				return pos[j]
+			case j == k:
+				return p
+			}
+			return pos[j-1]
+		}
+	}
+	kind := int(vk.Mix(sum^0xf11b) % 3)
+	if n == 0 {
+		setAt(int32(vk.Mix(sum^0x5e7b)%uint64(64*nw)), 0)
+		vk.Label("edit:set-a-bit-of-an-empty-bitmap", 1)
+	} else {
+		if kind == 1 { // set the first 0-bit above the i0-th one (at most 256 bits further up)
+			p := pos[i0] + 1
+			for p < end && p-pos[i0] <= 256 && orig[p>>6]>>uint(p&63)&1 == 1 {
+				p++
+			}
+			if p < end && p-pos[i0] <= 256 {
+				setAt(p, i0+int(p-pos[i0])) // all bits between are ones
+				vk.Label("edit:set-the-first-0-bit-above-the-i0-th-one", 1)
+			} else {
+				kind = 0
+			}
+		}
+		if kind == 0 && i0+1 >= n {
+			kind = 2
+		}
+		switch kind {
+		case 0:
+			clearAt(i0 + 1)
+			vk.Label("edit:clear-the-(i0+1)-th-one", 1)
+		case 2:
+			clearAt(i0)
+			vk.Label("edit:clear-the-i0-th-one", 1)
+		}
+	}
+	flipWord, flipMask := int(flip>>6), uint64(1)<<uint(flip&63)
+
+	a32 := vk.Mix(sum^0x3d17)&1 == 0 // builder A is IndexSelect32 (else IndexSelect32R64)
+	var oldS, oldR, newS, newS2, newR []int32
+	if f := vk.Try("index builder on the unchanged bitmap, once more", func() {
+		if a32 {
+			oldS = bitmap.IndexSelect32(words)
+		} else {
+			oldS, oldR = bitmap.IndexSelect32R64(words)
+		}
+	}); f != nil {
+		return f
+	}
+	if f := selectIndexIs("(second call, same content) select index of "+builderName(a32), oldS, n, posAt); f != nil {
+		return f
+	}
+	if !a32 {
+		if f := rankIndexIs("(second call, same content) IndexSelect32R64", oldR, -1, 0); f != nil {
+			return f
+		}
+	}
+	if n > 0 {
+		if f := query(int32(i0)); f != nil {
+			return f
+		}
+	}
+	words[flipWord] ^= flipMask
+	if f := vk.Try("index builders after one bit of the bitmap was flipped in place", func() {
+		if a32 {
+			newS2, newR = bitmap.IndexSelect32R64(words)
+			newS = bitmap.IndexSelect32(words)
+		} else {
+			newS = bitmap.IndexSelect32(words)
+			newS2, newR = bitmap.IndexSelect32R64(words)
+		}
+	}); f != nil {
+		return f
+	}
+	edited := fmt.Sprintf("after bit %d was flipped in place (%d -> %d ones) and the indexes were built again: ", flip, n, n2)
+	if f := selectIndexIs(edited+"IndexSelect32", newS, n2, at); f != nil {
+		return f
+	}
+	if f := selectIndexIs(edited+"IndexSelect32R64.select", newS2, n2, at); f != nil {
+		return f
+	}
+	if f := rankIndexIs(edited+"IndexSelect32R64", newR, flipWord, delta); f != nil {
+		return f
+	}
+	for _, j := range []int{i0 + 1, i0, i0 + 2} {
+		if j >= n2 {
+			continue
+		}
+		wantB := end
+		if j+1 < n2 {
+			wantB = at(j + 1)
+		}
+		if f := selectPair(edited, newS, newS2, newR, int32(j), at(j), wantB, n2); f != nil {
+			return f
+		}
+	}
+	words[flipWord] ^= flipMask // the old content again
+	// the last builder call of the case, on the restored content (the next case that reuses the buffer starts
+	// with either builder)
+	z32 := vk.Mix(sum^0x2a57)&1 == 0
+	var lastS, lastR []int32
+	if f := vk.Try("index builder after the flipped bit was flipped back", func() {
+		if z32 {
+			lastS = bitmap.IndexSelect32(words)
+		} else {
+			lastS, lastR = bitmap.IndexSelect32R64(words)
+		}
+	}); f != nil {
+		return f
+	}
+	if f := selectIndexIs("(bit flipped and flipped back) select index of "+builderName(z32), lastS, n, posAt); f != nil {
+		return f
+	}
+	if !z32 {
+		if f := rankIndexIs("(bit flipped and flipped back) IndexSelect32R64", lastR, -1, 0); f != nil {
+			return f
+		}
+	}
+	return lastQuery()
+}
+
+// carry: the i of the last select on the reused argument buffer (see check).
+var carry struct {
+	valid bool
+	i     int32
+}
+
+// editUpTo: quick tier: larger bitmaps are not edited in place (four more index builds, each walks every bit);
+// the thorough tier edits every bitmap.
+const editUpTo = 1 << 12
+
+func builderName(is32 bool) string {
+	if is32 {
+		return "IndexSelect32"
+	}
+	return "IndexSelect32R64"
+}
+
+// allQueries: every valid i up to allUpTo ones, else the boundaries and the sampled i of the case.
+func allQueries(c Case, n int, query func(int32) *vk.Failure) *vk.Failure {
 	if n <= allUpTo {
 		for i := 0; i < n; i++ {
 			if f := query(int32(i)); f != nil {
